@@ -3,7 +3,7 @@
 Any report is a false alarm of the checker (developer helper for the both-ways test; nothing here touches /repo)."""
 import glob, os, re, shutil, subprocess, sys, tempfile, concurrent.futures
 HERE = os.path.dirname(os.path.dirname(os.path.abspath(__file__)))
-PROPS = ["C%02d" % i for i in range(1, 21)]
+PROPS = os.environ.get("VERIF_PROPS", "").split() or ["C%02d" % i for i in range(1, 21)]
 
 
 def one(patch):
